@@ -233,10 +233,21 @@ ROW_OF_CLASS = {'claim': 1, 'update': 1, 'support': 3, 'support+data': 3}
 # implementation adapter
 # ------------------------------------------------------------------------------------------------
 
-OUT_T = {t.name: t for t in OutputScript.templates}
-IN_T = {t.name: t for t in (InputScript.REDEEM_PUBKEY, InputScript.REDEEM_PUBKEY_HASH, InputScript.TIME_LOCK_SCRIPT,
-                            InputScript.REDEEM_SCRIPT_HASH_TIME_LOCK, InputScript.MULTI_SIG_SCRIPT,
-                            InputScript.REDEEM_SCRIPT_HASH_MULTI_SIG)}
+# templates by the class attribute that holds them (not by Template.name, which is part of what is checked)
+OUT_T = {
+    'pay_pubkey_full': OutputScript.PAY_PUBKEY_FULL, 'pay_pubkey_hash': OutputScript.PAY_PUBKEY_HASH,
+    'pay_script_hash': OutputScript.PAY_SCRIPT_HASH, 'pay_script_hash+segwit': OutputScript.PAY_SEGWIT,
+    'return_data': OutputScript.RETURN_DATA,
+    'claim_name+pay_pubkey_hash': OutputScript.CLAIM_NAME_PUBKEY, 'claim_name+pay_script_hash': OutputScript.CLAIM_NAME_SCRIPT,
+    'support_claim+pay_pubkey_hash': OutputScript.SUPPORT_CLAIM_PUBKEY,
+    'support_claim+pay_script_hash': OutputScript.SUPPORT_CLAIM_SCRIPT,
+    'support_claim+data+pay_pubkey_hash': OutputScript.SUPPORT_CLAIM_DATA_PUBKEY,
+    'support_claim+data+pay_script_hash': OutputScript.SUPPORT_CLAIM_DATA_SCRIPT,
+    'update_claim+pay_pubkey_hash': OutputScript.UPDATE_CLAIM_PUBKEY, 'update_claim+pay_script_hash': OutputScript.UPDATE_CLAIM_SCRIPT,
+}
+IN_T = {'pubkey': InputScript.REDEEM_PUBKEY, 'pubkey_hash': InputScript.REDEEM_PUBKEY_HASH,
+        'timelock': InputScript.TIME_LOCK_SCRIPT, 'script_hash+timelock': InputScript.REDEEM_SCRIPT_HASH_TIME_LOCK,
+        'multi_sig': InputScript.MULTI_SIG_SCRIPT, 'script_hash+multi_sig': InputScript.REDEEM_SCRIPT_HASH_MULTI_SIG}
 SUB_T = {'sub_timelock': InputScript.TIME_LOCK_SCRIPT, 'sub_multi_sig': InputScript.MULTI_SIG_SCRIPT}
 
 _ledger = None
@@ -323,13 +334,20 @@ def impl_parse(kind, src):
     if kind == 'output':
         return impl_parse_script(OutputScript(src), True)
     if kind == 'input':
-        return impl_parse_script(InputScript(src), False)
+        sc = InputScript(src)
+        out = impl_parse_script(sc, False)
+        if 'error' not in out:
+            out['is_script_hash'] = bool(sc.is_script_hash)
+        return out
     return impl_parse_script(Script.from_source_with_template(src, SUB_T[kind]), False)
 
 
 def model_parse(model, kind, src):
     m = model.call('parse', kind=kind, s=src.hex())
-    return strip_model(m, kind == 'output')
+    out = strip_model(m, kind == 'output')
+    if kind == 'input' and 'error' not in m:
+        out['is_script_hash'] = m['is_script_hash']      # InputScript.is_script_hash
+    return out
 
 
 def align_row(impl, mod):
@@ -353,6 +371,7 @@ def strip_model(m, is_output):
         out['flags'] = m['flags']
         out['row_type'] = m['row_type']
     return out
+
 
 
 # ------------------------------------------------------------------------------------------------
@@ -578,6 +597,105 @@ def base_script(run, case):
         return None
 
 
+OUT_QUERIES = ['template', 'values'] + FLAG_NAMES + ['Output.has_address']
+IN_QUERIES = ['template', 'values', 'is_script_hash']
+SUB_QUERIES = ['template', 'values']
+
+
+def query_plan(kind, seed):
+    """every query twice, in an order fixed by the case: classification must be a function of the bytes, whatever
+    was asked before on the same object (a failed first parse included)"""
+    qs = OUT_QUERIES if kind == 'output' else (IN_QUERIES if kind == 'input' else SUB_QUERIES)
+    plan = list(qs) * 2
+    random.Random(seed).shuffle(plan)
+    return plan
+
+
+def impl_requery(kind, src, plan):
+    """ONE script object (and one Output around it), asked the whole plan; each answer canonicalised, exceptions by class"""
+    if kind == 'output':
+        s = OutputScript(src)
+    elif kind == 'input':
+        s = InputScript(src)
+    else:
+        s = Script.from_source_with_template(src, SUB_T[kind])
+    o = Output(1000, s) if kind == 'output' else None
+    out = []
+    for q in plan:
+        try:
+            if q == 'template':
+                a = s.template.name
+            elif q == 'values':
+                a = {k: canon_val(v) for k, v in s.values.items()}
+            elif q.startswith('Output.'):
+                a = bool(getattr(o, q[7:]))
+            else:
+                a = bool(getattr(s, q))
+        except Exception as e:  # noqa
+            a = {'error': err_class(e)}
+        out.append(a)
+    return out
+
+
+def stateless_answers(parsed, plan):
+    """what a stateless reading of one parse result (model or first implementation look) answers to the plan"""
+    out = []
+    for q in plan:
+        if 'error' in parsed:
+            out.append({'error': parsed['error']})
+        elif q == 'template':
+            out.append(parsed['template'])
+        elif q == 'values':
+            out.append(parsed['values'])
+        elif q == 'is_script_hash':
+            out.append(parsed['is_script_hash'])
+        elif q == 'Output.has_address':
+            out.append('pubkey_hash' in parsed['values'] or 'script_hash' in parsed['values'])
+        else:
+            out.append(parsed['flags'][FLAG_NAMES.index(q)])
+    return out
+
+
+def monitor_requery(kind, src, plan, answers):
+    """the property's clause on EVERY access: classified exactly when the opcodes say so"""
+    if kind == 'output':
+        st, info = ref_classify_output(src)
+        if st == 'ambiguous':
+            return None      # reported by monitor_parse
+        if st == 'match':
+            name, klass, vals = info
+            exp = expected_flags(name, klass)
+        elif st == 'empty':
+            name, exp, vals = 'no_script', [False] * len(FLAG_NAMES), {}
+    elif kind == 'input':
+        st, info = ref_match_input(src)
+        if st == 'match':
+            name, vals = info
+            if name == 'script_hash+multi_sig':
+                return None      # outside the property; compared with the model only
+        elif st == 'empty':
+            name, vals = 'no_script', {}
+    else:
+        return None          # hinted subscripts: compared with the model and with the first look only
+    for i, (q, a) in enumerate(zip(plan, answers)):
+        asked = f'access #{i + 1} ({q}, after {plan[:i][-3:]})'
+        if st in ('nomatch', 'error'):
+            if a != {'error': 'ValueError'}:
+                return f'no template has this opcode shape, yet {asked} on the same object answered {a!r}'
+            continue
+        if isinstance(a, dict) and 'error' in a:
+            return f'the opcodes have the shape of {name}, yet {asked} raised {a["error"]}'
+        if q == 'template' and a != name:
+            return f'the opcodes have the shape of {name}, yet {asked} answered {a!r}'
+        if kind == 'output' and q in FLAG_NAMES and a != exp[FLAG_NAMES.index(q)]:
+            return f'{name}: {asked} answered {a!r}'
+        if q == 'Output.has_address' and a != ('pubkey_hash' in vals or 'script_hash' in vals):
+            return f'{name}: {asked} answered {a!r}'
+        if q == 'is_script_hash' and a != name.startswith('script_hash+'):
+            return f'{name}: {asked} answered {a!r}'
+    return None
+
+
 def check_parse(run, model, case):
     kind = case['kind']
     src = base_script(run, case)
@@ -590,7 +708,18 @@ def check_parse(run, model, case):
     if bad:
         run.violation(case, bad, signature={'op': 'parse', 'kind': kind, 'script': src.hex() if len(src) < 400 else case['script']})
         return
-    run.compare('C15.parse', case, impl, align_row(impl, model_parse(model, kind, src)))
+    mod = model_parse(model, kind, src)
+    run.compare('C15.parse', case, impl, align_row(impl, mod))
+    # the same questions again, on ONE object, twice each and in a case-fixed order
+    plan = query_plan(kind, case.get('requery_seed', 0))
+    answers = impl_requery(kind, src, plan)
+    run.count('requery:' + ('after-failed-parse' if 'error' in impl else 'after-match'))
+    bad = monitor_requery(kind, src, plan, answers)
+    if bad:
+        run.violation(case, bad, signature={'op': 'requery', 'kind': kind, 'plan_seed': case.get('requery_seed', 0),
+                                            'script': src.hex() if len(src) < 400 else case['script']})
+        return
+    run.compare('C15.requery', case, answers, stateless_answers(mod, plan))
 
 
 def monitor_parse(kind, src, impl):
@@ -736,7 +865,10 @@ def check_tx(run, model, case):
     for (_, _, src), o in zip(want, back.outputs):
         ip = impl_parse_script(o.script, True)
         run.compare('C15.tx-output', case, ip, align_row(ip, model_parse(model, 'output', src)))
-    run.compare('C15.tx-input', case, impl_parse_script(isc, False), model_parse(model, 'input', isc.source))
+    ipi = impl_parse_script(isc, False)
+    if 'error' not in ipi:
+        ipi['is_script_hash'] = bool(isc.is_script_hash)
+    run.compare('C15.tx-input', case, ipi, model_parse(model, 'input', isc.source))
 
 
 def check_purchase_row(run, model, case):
@@ -871,6 +1003,12 @@ def rand_edit(rng, n):
 
 
 def gen_parse_case(rng):
+    case = gen_parse_case0(rng)
+    case['requery_seed'] = rng.randrange(1 << 16)
+    return case
+
+
+def gen_parse_case0(rng):
     c = rng.random()
     if c < 0.22:     # random opcode soup
         n = rng.randrange(0, 14)
